@@ -44,4 +44,18 @@ example : decParts (|(-11 / 4 : Rat)|) = some ⟨275, 3, 1⟩ := by decide +kern
 example : getFractionalPart (|(-11 / 4 : Rat)|) ⟨275, 3, 1⟩ = 3 / 4 := by decide +kernel
 example : decParts (3 / 4) = some ⟨75, 2, 0⟩ ∧ getMaxNumerator ⟨75, 2, 0⟩ = 75 := by decide +kernel
 
+
+/-! ### witnesses over the shipped table (machine-checked on the tree they were written for; a changed table
+value can change them without touching a property theorem, hence here and not in the theorem module) -/
+
+/-- **the bound is attained: below `SMALL` the fraction is lost.**  `0 1/2 um` converts to `0 km`
+although `0.5 um = 5·10⁻¹⁰ km` (known finding `tiny-increment`; the full-strength statement
+"`r.value = y` for all units" is false) -/
+theorem fs_convert_tiny_counterexample :
+    convertFV poscDb (Sym.ofString "length") (Sym.ofString "um") (Sym.ofString "km") ⟨0, ⟨1 / 2⟩⟩
+      = .ok ⟨0, ⟨0⟩⟩
+    ∧ (⟨Sym.ofString "length", Sym.ofString "um"⟩ : Qty).convertScalarValue poscDb (Sym.ofString "km") (1 / 2)
+      = .ok (1 / 2000000000) := by
+  constructor <;> decide +kernel
+
 end Barril.Frac
